@@ -1748,9 +1748,16 @@ func (h *fsmHandler) openconfirm(ctx context.Context) (bgp.FSMState, *fsmStateRe
 				if m.Header.Type == bgp.BGP_MSG_KEEPALIVE {
 					return bgp.BGP_FSM_ESTABLISHED, newfsmStateReason(fsmOpenMsgNegotiated, nil, nil)
 				}
-				// send notification ?
-				fsm.conn.Close()
-				return bgp.BGP_FSM_IDLE, newfsmStateReason(fsmInvalidMsg, nil, nil)
+				if m.Header.Type == bgp.BGP_MSG_NOTIFICATION {
+					// a NOTIFICATION is never answered with one
+					fsm.conn.Close()
+					return bgp.BGP_FSM_IDLE, newfsmStateReason(fsmInvalidMsg, nil, nil)
+				}
+				// RFC 4271 8.2.2 / RFC 6608: any other message is an FSM
+				// error, subcode "unexpected message in OpenConfirm"
+				n := bgp.NewBGPNotificationMessage(bgp.BGP_ERROR_FSM_ERROR, bgp.BGP_ERROR_SUB_RECEIVE_UNEXPECTED_MESSAGE_IN_OPENCONFIRM_STATE, nil)
+				_ = fsm.sendNotification(fsm.conn, n)
+				return bgp.BGP_FSM_IDLE, newfsmStateReason(fsmInvalidMsg, n, nil)
 			case *bgp.MessageError:
 				n := bgp.NewBGPNotificationMessage(m.TypeCode, m.SubTypeCode, m.Data)
 				_ = fsm.sendNotification(fsm.conn, n)
